@@ -285,7 +285,9 @@ SLACK_STUBS = '''impl Instance {
 }
 impl Function {
     // Function::used_decision_variable_ids (iterator collects, verified in C08)
-    #[verifier::external_body] pub fn used_decision_variable_ids(&self) -> (r: BTreeSet<u64>) ensures r@ == fn_ids(*self) { unimplemented!() }
+    #[verifier::external_body] pub fn used_decision_variable_ids(&self) -> (r: BTreeSet<u64>)
+        requires fn_coo_ok(*self)      // for COO arrays of different lengths the collected ids (all rows and columns) exceed fn_ids (positions below the shortest length)
+        ensures r@ == fn_ids(*self) { unimplemented!() }
     // Function::content_factor (C16): a positive finite multiplier that makes every coefficient integral, hence a*f integer-valued on integer points
     #[verifier::external_body] pub fn content_factor(&self) -> (r: Result<F64, VErr>)
         requires fn_coo_ok(*self)      // the term iterator asserts equal COO lengths
